@@ -8,7 +8,7 @@ implies(a,b), ite(c,a,b), exc (the raised exception in a raises-clause), ghost.<
 """
 from __future__ import annotations
 
-REG = {"contracts": {}, "classes": {}, "invariants": {}, "lemmas": {}, "specs": {}}
+REG = {"contracts": {}, "classes": {}, "invariants": {}, "lemmas": {}, "specs": {}, "ghosts": {}, "stmts": {}}
 
 
 class Contract:
@@ -98,3 +98,22 @@ def lemma(name, **kw):
 def spec(name, params, body):
     """Pure spec function usable in every contract: name(params) := body (expression string)."""
     REG["specs"][name] = (list(params), body)
+
+
+def ghost_var(name, type_):
+    """Declare a global ghost variable (materialised lazily, fresh, in any verification that touches it)."""
+    REG["ghosts"][name] = type_
+
+
+class StmtContract:
+    def __init__(self, key, match, ensures, label, props=()):
+        self.key, self.match, self.ensures, self.label, self.props = key, match, list(ensures), label, list(props)
+
+
+def stmt_contract(key, match, ensures, label, **kw):
+    """Obligation attached to ONE statement of a function, located by its source text (whitespace-insensitive).
+    In `ensures`, before(e) is e evaluated just before the statement.  If the text is no longer found the
+    obligation is reported as not generated (UNDECIDED), never as proved."""
+    sc = StmtContract(key, match, ensures, label, **kw)
+    REG["stmts"].setdefault(key, []).append(sc)
+    return sc
